@@ -181,8 +181,15 @@ class ModelRunner:
     """Talks to the extracted OCaml model over a pipe; answers primitive call-backs."""
 
     def __init__(self, oracles=None):
+        def big_stack():
+            import resource
+            soft, hard = resource.getrlimit(resource.RLIMIT_STACK)
+            try:
+                resource.setrlimit(resource.RLIMIT_STACK, (hard, hard))
+            except (ValueError, OSError):
+                pass
         self.p = subprocess.Popen([os.path.join(VERIF, 'ocaml', 'modelrun')], stdin=subprocess.PIPE,
-                                  stdout=subprocess.PIPE, text=True, bufsize=1)
+                                  stdout=subprocess.PIPE, text=True, bufsize=1, preexec_fn=big_stack)
         self.oracles = oracles or {}
         self.queries = 0
 
